@@ -136,6 +136,12 @@ fn main() {
                 }
             }
         }
+        Some("debug-c04") => {
+            let rf: ReplayFile = serde_json::from_str(&std::fs::read_to_string(&args[2]).unwrap()).unwrap();
+            let case: p04::Case = serde_json::from_value(rf.case).unwrap();
+            p04::debug(&case);
+            0
+        }
         Some("replay-inner") => {
             let strict = args.iter().any(|a| a == "--strict");
             replay_file(&PathBuf::from(&args[2]), strict)
